@@ -9,7 +9,7 @@ import (
 
 func init() { generators["C16"] = genC16 }
 
-var colLayouts = []string{"colmajor", "colconv", "colT", "colmajor", "contig", "lazyT", "sliced"}
+var colLayouts = []string{"colmajor", "colconv", "colT", "colmajor", "contig", "lazyT", "sliced", "colsliced", "colstepped"}
 
 // C16: the operation matrices of the other properties re-run with column-major operands
 // (each operand and the reuse destination independently column-major, built both ways).
